@@ -702,7 +702,7 @@ Proof.
       * rewrite rlk_ins_eq. apply Hin; exact Hc.
       * rewrite rlk_ins_neq by exact Hn.
         assert (Hi : ~ In c (clients_of t s)).
-        { intros Hi. apply Hn. eapply clients_of_topic; eassumption. }
+        { intros Hi. apply Hn. exact (clients_of_topic s t' t c B Hc Hi). }
         rewrite (Hout c Hi). unfold s2; cbn [set_rules subs]. rewrite (Hout1 c Hi). apply (m_rule s M); exact Hc.
     + rewrite Hru. unfold s2; cbn [set_rules rules]. rewrite Hru1.
       rewrite rlk_ins_neq by (intros E; apply Et; symmetry; exact E). exact (m_reserved s M).
@@ -743,7 +743,7 @@ Proof.
       * rewrite rlk_rm_eq. apply Hin1; exact Hc.
       * rewrite rlk_rm_neq by exact Hn.
         assert (Hi : ~ In c (clients_of t s)).
-        { intros Hi. apply Hn. eapply clients_of_topic; eassumption. }
+        { intros Hi. apply Hn. exact (clients_of_topic s t' t c B Hc Hi). }
         rewrite (Hout1 c Hi). apply (m_rule s M); exact Hc.
     + rewrite Hru1. rewrite rlk_rm_neq by (intros E; apply Et; symmetry; exact E). exact (m_reserved s M).
   - intros t'. cbn [set_rules rules rule_step]. rewrite Hru1.
@@ -765,12 +765,17 @@ Proof.
   destruct (stop_clients_spec false (keys (subs s)) s B (b_nd_subs s B)) as (inn & cl & Hstop & Hcl & Hinn).
   rewrite Hstop. cbn [rules streams subs inner closed next]. eexists. split; [reflexivity|].
   split; [split|split; [|split]].
-  - constructor; cbn [rules streams subs inner closed next entries lookup map];
-      try (intros; contradiction); try constructor.
+  - constructor; unfold entries; cbn [rules streams subs inner closed next lookup map].
+    + constructor.
     + apply (b_cl s B).
+    + intros c. constructor.
+    + intros c c' id f f' [].
+    + intros c id f [].
+    + intros c id f [].
     + intros id Hid. apply Hcl in Hid. destruct Hid as [H|(c & f & _ & H)].
       * apply (b_closed_lt s B); exact H.
       * eapply (b_lt s B); exact H.
+    + intros c id f [].
   - constructor; cbn [rules streams subs lookup].
     + intros c H. congruence.
     + intros t c _. reflexivity.
@@ -807,4 +812,212 @@ Proof.
     intros t'. rewrite H3. reflexivity.
   - exists s, (recipients f (inner s)). split; [reflexivity|]. split; [exact I|].
     split; [reflexivity|]. split; [reflexivity|]. intros D _; exact D.
+Qed.
+
+(* ------------------------------------------------------------------ histories *)
+Lemma final_snoc fx ops o : final fx (ops ++ [o]) = bind_step fx (final fx ops) o.
+Proof. unfold final. rewrite fold_left_app. reflexivity. Qed.
+
+Lemma reg_of_snoc ops o c : reg_of (ops ++ [o]) c = reg_step c (reg_of ops c) o.
+Proof. unfold reg_of. rewrite fold_left_app. reflexivity. Qed.
+
+Lemma rule_of_snoc ops o t : rule_of (ops ++ [o]) t = rule_step t (rule_of ops t) o.
+Proof. unfold rule_of. rewrite fold_left_app. reflexivity. Qed.
+
+Lemma wf_snoc ops o : wf (ops ++ [o]) -> wf ops /\ forall c, o = Register c -> reg_of ops c = false.
+Proof.
+  intros H. split.
+  - intros p c q E. apply (H p c (q ++ [o])). rewrite E, <- app_assoc. reflexivity.
+  - intros c ->. apply (H ops c []). reflexivity.
+Qed.
+
+Lemma reg_step_link (P P' : Prop) c o b :
+  (P' <-> match o with
+          | Register c' => c = c' \/ P
+          | Unregister c' => c <> c' /\ P
+          | _ => P
+          end) ->
+  (P <-> b = true) -> (P' <-> reg_step c b o = true).
+Proof.
+  intros H1 H2. rewrite H1. destruct o as [c'|c'| | | |]; cbn [reg_step]; try exact H2.
+  - destruct (client_eqb c c') eqn:E.
+    + apply EC in E. split; [reflexivity|intros _; left; exact E].
+    + rewrite <- H2. split; [intros [Hc|Hp]; [apply EC in Hc; congruence|exact Hp]|intros Hp; right; exact Hp].
+  - destruct (client_eqb c c') eqn:E.
+    + apply EC in E. split; [intros [Hn _]; contradiction|discriminate].
+    + rewrite <- H2. split; [intros [_ Hp]; exact Hp|intros Hp; split; [|exact Hp]].
+      intros Hc. apply EC in Hc. congruence.
+Qed.
+
+(* everything the later theorems need about the state after a history *)
+Theorem reach ops :
+  exists s, final true ops = Some s /\ Inv s /\
+    (forall t, rlk t (rules s) = rule_of ops t) /\
+    (forall c, regP s c <-> reg_of ops c = true) /\
+    (wf ops -> InvD s).
+Proof.
+  induction ops as [|o ops IH] using rev_ind.
+  - exists init. split; [reflexivity|]. split; [exact inv_init|]. split; [reflexivity|].
+    split; [|intros _; exact invd_init].
+    intros c. unfold regP, reg_of; cbn. destruct (snd c); split; intros H; try contradiction; discriminate.
+  - destruct IH as (s & Hf & I & Hr & Hg & Hd).
+    destruct (step_facts s o I) as (s' & out & Hs & I' & Fr & Fg & Fd).
+    exists s'. split; [rewrite final_snoc, Hf; cbn [bind_step]; rewrite Hs; reflexivity|].
+    split; [exact I'|]. split; [|split].
+    + intros t. rewrite Fr, Hr, rule_of_snoc. reflexivity.
+    + intros c. rewrite reg_of_snoc. eapply reg_step_link; [apply Fg|apply Hg].
+    + intros W. apply wf_snoc in W. destruct W as [W1 W2]. apply Fd; [apply Hd; exact W1|].
+      intros c E Hc. apply Hg in Hc. rewrite (W2 c E) in Hc. discriminate.
+Qed.
+
+Lemma run_never_panics ops : forall s, Inv s -> snd (run true s ops) = false.
+Proof.
+  induction ops as [|o r IH]; intros s I; cbn [run]; [reflexivity|].
+  destruct (step_facts s o I) as (s' & out & Hs & I' & _). rewrite Hs.
+  specialize (IH s' I'). destruct (run true s' r) as [outs p]. exact IH.
+Qed.
+
+Lemma fold_bind_none fx ops : fold_left (bind_step fx) ops None = None.
+Proof. induction ops as [|o r IH]; cbn; [reflexivity|exact IH]. Qed.
+
+Lemma run_app fx a : forall s b,
+  run fx s (a ++ b) =
+  match fold_left (bind_step fx) a (Some s) with
+  | Some s' => (fst (run fx s a) ++ fst (run fx s' b), snd (run fx s' b))
+  | None => run fx s a
+  end.
+Proof.
+  induction a as [|o r IH]; intros s b.
+  - cbn. destruct (run fx s b); reflexivity.
+  - cbn [app run fold_left bind_step]. destruct (step fx s o) as [s1 out|].
+    + rewrite IH. destruct (fold_left (bind_step fx) r (Some s1)) as [s'|].
+      * destruct (run fx s1 r) as [o1 p1]. destruct (run fx s' b) as [o2 p2]. reflexivity.
+      * destruct (run fx s1 r) as [o1 p1]. reflexivity.
+    + rewrite fold_bind_none. reflexivity.
+Qed.
+
+(* ---- the property's clauses ---- *)
+Theorem agg_never_panics ops : snd (run true init ops) = false.
+Proof. apply run_never_panics. exact inv_init. Qed.
+
+Theorem agg_never_dies ops : final true ops <> None.
+Proof. destruct (reach ops) as (s & Hf & _). congruence. Qed.
+
+(* feeds of the sub-subscriptions of c whose Stopped channel is still open *)
+Definition live_feeds (c : client) (s : st) : list N :=
+  map snd (filter (fun e => negb (existsb (N.eqb (fst e)) (closed s))) (entries c s)).
+
+Lemma filter_all {A} (p : A -> bool) l : (forall x, In x l -> p x = true) -> filter p l = l.
+Proof.
+  induction l as [|x r IH]; intros H; cbn; [reflexivity|].
+  rewrite (H x (or_introl eq_refl)). rewrite IH; [reflexivity|]. intros y Hy. apply H. right; exact Hy.
+Qed.
+
+Theorem subs_match_rule ops s c t :
+  final true ops = Some s -> snd c = TStream t -> reg_of ops c = true ->
+  live_feeds c s = match rule_of ops t with Some fs => fs | None => [] end /\
+  (forall id f, In (id, f) (entries c s) -> ~ In id (closed s) /\ In (MSub id f c) (inner s)).
+Proof.
+  intros Hf Hc Hr. destruct (reach ops) as (s0 & Hf0 & [B M] & Hru & Hg & _).
+  rewrite Hf in Hf0. inversion Hf0; subst s0. clear Hf0.
+  apply Hg in Hr. rewrite (regP_stream s c t Hc) in Hr.
+  split.
+  - unfold live_feeds. rewrite filter_all.
+    + pose proof (m_rule s M t c Hr) as Hm. rewrite <- Hru. unfold entries.
+      destruct (rlk t (rules s)) as [fs|].
+      * destruct Hm as (l & -> & Hl). exact Hl.
+      * rewrite Hm. reflexivity.
+    + intros [id f] He. cbn [fst]. destruct (existsb (N.eqb id) (closed s)) eqn:E; [|reflexivity].
+      apply existsb_N in E. exfalso. eapply (b_live s B); eassumption.
+  - intros id f He. split; [eapply (b_live s B); exact He|apply (b_sub_reg s B); exact He].
+Qed.
+
+Lemma in_recipients c f inn : In c (recipients f inn) <->
+  (In (MPlain c) inn /\ snd c = TFeed f) \/ (exists id, In (MSub id f c) inn).
+Proof.
+  unfold recipients. rewrite in_flat_map. split.
+  - intros [m [Hm Hc]]. destruct m as [c'|id g o]; cbn [recipient] in Hc.
+    + destruct (topic_eqb (snd c') (TFeed f)) eqn:E; [|contradiction]. destruct Hc as [->|[]].
+      apply topic_eqb_spec in E. left; auto.
+    + destruct (N.eqb g f) eqn:E; [|contradiction]. destruct Hc as [->|[]].
+      apply EN in E. subst g. right. exists id; exact Hm.
+  - intros [[Hm Hc]|[id Hm]].
+    + exists (MPlain c). split; [exact Hm|]. cbn [recipient].
+      assert (E : topic_eqb (snd c) (TFeed f) = true) by (apply topic_eqb_spec; exact Hc).
+      rewrite E. left; reflexivity.
+    + exists (MSub id f c). split; [exact Hm|]. cbn [recipient]. rewrite N.eqb_refl. left; reflexivity.
+Qed.
+
+Theorem delivery_spec ops f : wf ops ->
+  exists s, final true ops = Some s /\ forall c, In c (recipients f (inner s)) <-> expected ops f c.
+Proof.
+  intros W. destruct (reach ops) as (s & Hf & [B M] & Hru & Hg & Hd). specialize (Hd W).
+  exists s. split; [exact Hf|]. intros c. rewrite in_recipients. unfold expected. rewrite <- Hg. split.
+  - intros [[Hm Hc]|[id Hm]].
+    + unfold regP. rewrite Hc. auto.
+    + apply (d_sub s Hd) in Hm. pose proof (entries_in_not_none c s _ Hm) as Hs.
+      destruct (m_own_reg s M c Hs) as (t & Ht & Hin). rewrite (regP_stream s c t Ht), Ht.
+      split; [exact Hin|]. pose proof (m_rule s M t c Hin) as Hm2. rewrite <- Hru.
+      destruct (rlk t (rules s)) as [fs|]; [|congruence].
+      destruct Hm2 as (l & Hl & Hfs). exists fs. split; [reflexivity|].
+      unfold entries in Hm. rewrite Hl in Hm. rewrite <- Hfs.
+      apply in_map_iff. exists (id, f). auto.
+  - intros [Hr Hx]. unfold regP in Hr. destruct (snd c) as [t|g] eqn:Ec.
+    + destruct Hx as (fs & Hfs & Hin). rewrite <- Hru in Hfs.
+      pose proof (m_rule s M t c Hr) as Hm. rewrite Hfs in Hm. destruct Hm as (l & Hl & Hmap).
+      rewrite <- Hmap in Hin. apply in_map_iff in Hin. destruct Hin as [[id g] [E Hin]]. cbn in E; subst g.
+      right. exists id. apply (b_sub_reg s B). unfold entries. rewrite Hl. exact Hin.
+    + subst g. left. auto.
+Qed.
+
+Definition is_rule_op (o : op) : bool :=
+  match o with AddRule _ _ | Delete _ | DeleteAll => true | _ => false end.
+
+Lemma reg_of_ignores_rules c ops : forall b,
+  fold_left (reg_step c) ops b = fold_left (reg_step c) (filter (fun o => negb (is_rule_op o)) ops) b.
+Proof.
+  induction ops as [|o r IH]; intros b; [reflexivity|].
+  destruct o; cbn [filter is_rule_op negb fold_left reg_step]; apply IH.
+Qed.
+
+(* rule operations never change which plain (non-stream) clients are members of the inner hub;
+   membership after a history depends on the client's own register / unregister operations only *)
+Theorem plain_unaffected :
+  (forall s o s' out c g, Inv s -> is_rule_op o = true -> step true s o = Ok s' out -> snd c = TFeed g ->
+     (In (MPlain c) (inner s') <-> In (MPlain c) (inner s))) /\
+  (forall ops c g, snd c = TFeed g ->
+     exists s, final true ops = Some s /\
+       (In (MPlain c) (inner s) <-> reg_of ops c = true) /\
+       reg_of ops c = reg_of (filter (fun o => negb (is_rule_op o)) ops) c).
+Proof.
+  split.
+  - intros s o s' out c g I Ho Hs Hc. destruct (step_facts s o I) as (s2 & out2 & Hs2 & _ & _ & Fg & _).
+    rewrite Hs in Hs2. inversion Hs2; subst s2 out2. specialize (Fg c). unfold regP in Fg. rewrite Hc in Fg.
+    destruct o; try discriminate; exact Fg.
+  - intros ops c g Hc. destruct (reach ops) as (s & Hf & _ & _ & Hg & _). exists s. split; [exact Hf|].
+    split; [|apply reg_of_ignores_rules]. specialize (Hg c). unfold regP in Hg. rewrite Hc in Hg. exact Hg.
+Qed.
+
+Theorem reserved_id :
+  (forall fx s fs, step fx s (AddRule reserved fs) = Ok s []) /\
+  (forall ops s, final true ops = Some s -> rlk reserved (rules s) = None).
+Proof.
+  split; [reflexivity|].
+  intros ops s Hf. destruct (reach ops) as (s0 & Hf0 & [_ M] & _). rewrite Hf in Hf0. inversion Hf0; subst s0.
+  exact (m_reserved s M).
+Qed.
+
+(* the output recorded for a broadcast that follows a history is the fan-out of the state after it *)
+Lemma run_then_bcast ops f s : final true ops = Some s ->
+  run true init (ops ++ [Bcast f]) = (fst (run true init ops) ++ [recipients f (inner s)], false).
+Proof.
+  intros Hf. rewrite run_app. unfold final in Hf. rewrite Hf. reflexivity.
+Qed.
+
+Theorem delivery_spec_run ops f : wf ops ->
+  exists out, run true init (ops ++ [Bcast f]) = (fst (run true init ops) ++ [out], false) /\
+    forall c, In c out <-> expected ops f c.
+Proof.
+  intros W. destruct (delivery_spec ops f W) as (s & Hf & H).
+  exists (recipients f (inner s)). split; [apply run_then_bcast; exact Hf|exact H].
 Qed.
